@@ -10,6 +10,8 @@ CONSTANTS
   CarryLayers = {"http", "json", "signed"}
   X509Chains = {"x509"}
   KeyOptions = {"der"}
+  ShapeChains = {}
+  ProbeClasses = {}
   ReplaySources = {}
 INIT Init
 NEXT Next
